@@ -2380,3 +2380,32 @@ def rule_partial_count_is_position(col, facts):
     col.check(R, "algorithm_partial:count-is-cursor", not bad,
               "the partial parser returns a count that is not the cursor position (or cursor - 1 / the buffer length): %s - e.g. `cursor() - zeros` reports Ok((0, 0)) for the input `0` under no_integer_leading_zeros although one byte was consumed and the complete parser accepts it" % sorted(bad)[:2], sorted(bad.values())[0] if bad else f.loc())
     col.floor(R, "Ok exits of the partial integer parser", n, 4)
+
+
+def rule_empty_number_exit(col, facts):
+    """MPT-empty (float entry points): an input that ends right after the optional sign is accepted as zero only
+    if nothing the format requires is missing.  The early `Ok` taken when the integer iterator is already
+    consumed must therefore be guarded by *every* flag that makes the empty number invalid: required integer
+    digits, required mantissa digits and required exponent notation (`""` has no exponent either)."""
+    R = "MPT-empty"
+    need = ("REQUIRED_INTEGER_DIGITS", "REQUIRED_MANTISSA_DIGITS", "REQUIRED_EXPONENT_NOTATION")
+    n = 0
+    for name in ("parse_complete", "fast_path_complete", "parse_partial", "fast_path_partial"):
+        f = facts.fn(PF + "parse::" + name)
+        for i, b in enumerate(f.blocks):
+            if not f.live(i):
+                continue
+            for st in b["s"]:
+                if not (st[0] == "=" and st[1] == [0, []] and st[2][0] == "agg" and st[2][1][0] == "adt" and st[2][1][1] == "core::result::Result" and st[2][1][3] == "Ok"):
+                    continue
+                conds = path_conditions(f, i)
+                early = any(strip_casts(e)[0] == "call" and last_seg(strip_casts(e)[1]) == "is_consumed" and p is True for _d, e, p in conds)
+                if not early:
+                    continue
+                n += 1
+                seen = {last_seg(strip_casts(e)[1]) for _d, e, p in conds if strip_casts(e)[0] == "kc" and p is False}
+                seen |= {last_seg(c[1]).upper() for _d, e, p in conds if p is False for c in expr_calls(e)}
+                missing = [x for x in need if x not in seen]
+                col.check(R, "%s:empty-ok" % name, not missing,
+                          "the empty number is accepted as zero without having found %s false: with required_exponent_notation (and digits not required) `` / `-` are accepted while `.`, `0`, `1` are rejected with MissingExponent" % ", ".join(missing), f.loc(st[3]))
+    col.floor(R, "empty-number exits of the float entry points", n, 4)
